@@ -69,10 +69,14 @@ def build(repo=None):
     st.env = {p_dims: Z("seq:dim", dims), p_shape: Z("seq:int", shape), p_memo: memo_ref, p_arg: arg_ref}
     st.pc = pre + base
     obligations = st.obl
-    loops = [x for x in ast.walk(fn) if isinstance(x, (ast.For, ast.While))]
-    if len(loops) != 1 or not isinstance(loops[0], ast.For):
-        raise Unsupported(f"{FUNC}: expected exactly one for-loop, found {len(loops)}")
+    # the axis loop: the one for-loop at the top level of the function body; loops nested inside it (none in the pinned source) are left to
+    # the engine's over-approximation of opaque loops (no iteration / one arbitrary iteration, then every name they assign is forgotten)
+    loops = [x for x in fn.body if isinstance(x, ast.For)]
+    if len(loops) != 1 or any(isinstance(x, ast.While) for x in ast.walk(fn)):
+        raise Unsupported(f"{FUNC}: expected exactly one top-level for-loop, found {len(loops)}")
     loop = loops[0]
+    if any(isinstance(x, ast.For) and x is not loop for x in ast.walk(fn)):
+        eng.approx_opaque_loops = True
     in_loop_exits = []
 
     def loop_handler(eng, node, s0):
